@@ -100,6 +100,8 @@ class C18(Check):
                         users = [False] * k
                     t["users"] = users
             out.append({"terms": terms, "groups_before": rng.choice([0, 0, 1, 5, 100, 100, 1022, 1023, 1024, 1100, 5000])})
+            if rng.random() < 0.3:
+                out[-1]["rejected_before"] = True
         return out
 
     def run_impl(self, case):
@@ -107,6 +109,23 @@ class C18(Check):
         from ebpfcat.ethercat import SyncManager
         ec = SimpleEtherCat("verif0")
         earlier = [ec.get_fmmu_addr() for _ in range(case["groups_before"])]
+        case["_nwin"] = case["groups_before"]
+        if case.get("rejected_before"):
+            # an earlier group of this master is allocated, then a group that does not fit is REJECTED (a directly addressed terminal
+            # overflows the frame), then the master goes on: the group under test must not get the earlier group's window
+            spec = dict(kind="fmmu", **{"in": 6, "out": 4}, rw=True, pos=1900, inoff=0x1180, outoff=0x1100, a_in=0, a_out=0)
+            ta = make_terminal(ec, spec)
+            sga = SyncGroup(ec, [FakeDevice({ta: True})])
+            sga.allocate()
+            earlier.append(min(v for d in sga.fmmu_maps.values() for v in d.values()) & ~0xfff)
+            tb = make_terminal(ec, dict(spec, kind="direct", **{"in": 1600, "out": 0}, pos=1901))
+            sgb = SyncGroup(ec, [FakeDevice({tb: False})])
+            try:
+                sgb.allocate()
+                return Err(4, "a group needing more than 1500 bytes was not rejected")
+            except OverflowError:
+                pass
+            case["_nwin"] += 1
         case["_earlier"] = earlier
         terms = [make_terminal(ec, s) for s in case["terms"]]
         # a terminal may be used by several devices with different access: it is written if ANY of them writes it
@@ -148,7 +167,7 @@ class C18(Check):
             kind = {"fmmu": "KFmmu", "direct": "KDirect"}.get(s["kind"]) or f"(KAero {cz(s['a_in'])} {cz(s['a_out'])})"
             ts.append(f"{{| t_kind := {kind}; t_in := {cz(s['in'])}; t_out := {cz(s['out'])}; t_rw := {cbool(s['rw'])}; "
                       f"t_pos := {cz(s['pos'])}; t_inoff := {cz(s['inoff'])}; t_outoff := {cz(s['outoff'])} |}}")
-        return f"(run {clist(ts)} (fmmu_addr {cz(case['groups_before'] + 1)}) 1000 34980)"
+        return f"(run {clist(ts)} (fmmu_addr {cz(case.get('_nwin', case['groups_before']) + 1)}) 1000 34980)"
 
     @staticmethod
     def need(terms):
@@ -197,7 +216,7 @@ class C18(Check):
         except (ValueError, IndexError) as e:
             return f"cyclic frame does not parse: {e}"
         regions = []
-        logical_base = 0x1000 * (case["groups_before"] + 1)
+        logical_base = 0x1000 * (case.get("_nwin", case["groups_before"]) + 1)
         for s, row in zip(terms, assign):
             for sm, slot in zip(("in", "out"), row):
                 used = s[sm] and (sm == "in" or s["rw"])
@@ -258,7 +277,7 @@ class C18(Check):
 
     def rule(self):
         return ("terminal sets of 1-12 terminals: FMMU / direct / Aerotech-style allocators, in/out sizes 0..800 (15% zero; 25% of sets sized to land near the "
-                "1500-byte limit), read-write flags (40% of the terminals are used by 2-3 devices with different access, the terminal is written if any of them writes), 0..5000 earlier sync groups on the same master (their logical windows must stay distinct); non-trivial = at least two regions allocated")
+                "1500-byte limit), read-write flags (40% of the terminals are used by 2-3 devices with different access, the terminal is written if any of them writes), 0..5000 earlier sync groups on the same master (their logical windows must stay distinct), 30% with an allocated group and then a REJECTED group before the one under test; non-trivial = at least two regions allocated")
 
     def distribution(self, cases, observed):
         d = {"rejected": 0, "terminals": 0, "aero": 0, "direct": 0, "fmmu": 0}
